@@ -58,9 +58,18 @@ def cyc_case(rng):
     names = gen.KEYS[:k]
     kind = rng.choice(["str-merge", "str-replace", "map-merge", "map-replace", "interp", "self-sub", "mixed", "list-merge"])
     d = {}
+    # rho-shaped: a tail of entries that LEADS INTO the cycle without being on it (the walk never comes back to where it started)
+    tail = rng.randint(1, 2) if k >= 2 and rng.random() < 0.4 else 0
+    if tail:
+        # (keys are visited in sorted order and a visited ring is left expanded in place: the tail is reached FIRST only when it
+        # sorts before the ring - and last when it sorts after it; both are generated)
+        names = [("A%d" if rng.random() < 0.7 else "t%d") % j for j in range(tail)] + list(names)
+    bare = rng.random() < 0.5
     for i, n in enumerate(names):
-        nxt = names[(i + 1) % k]
-        if kind == "str-merge":
+        nxt = names[i + 1] if i + 1 < len(names) else names[tail]
+        if kind == "map-merge" and bare:
+            d[n] = {"$merge": nxt}
+        elif kind == "str-merge":
             d[n] = "$merge:" + nxt
         elif kind == "str-replace":
             d[n] = "$replace:" + nxt
@@ -183,19 +192,24 @@ def self_containing_hosts(doc):
             t = _ref_path(x["$merge"])
             if t is not None:
                 hosts.append((tuple(p), t))
-    # edge h -> h' when h' lies inside the subtree h refers to
-    succ = {i: [j for j, (pj, _) in enumerate(hosts) if pj[:len(t)] == t] for i, (_, t) in enumerate(hosts)}
+    # edge h -> h' when h' lies inside the subtree h refers to; STRICT when h' lies properly inside it (the expansion then carries
+    # a copy of h' along with its surroundings - that is what makes the work grow; a plain ring `a: {$merge: b}`, `b: {$merge: a}`,
+    # where every target IS the next host, only goes round and is stopped by the depth guard)
+    succ = {i: [(j, len(pj) > len(t)) for j, (pj, _) in enumerate(hosts) if pj[:len(t)] == t] for i, (_, t) in enumerate(hosts)}
     n = 0
     for i in succ:
-        seen, todo = set(), list(succ[i])
-        while todo:
-            j = todo.pop()
-            if j == i:
-                n += 1
+        # a cycle through i that uses at least one strict edge: search over (host, strict edge seen)
+        seen, todo, hit = set(), [(j, st) for j, st in succ[i]], False
+        while todo and not hit:
+            j, st = todo.pop()
+            if j == i and st:
+                hit = True
                 break
-            if j not in seen:
-                seen.add(j)
-                todo.extend(succ[j])
+            if (j, st) not in seen:
+                seen.add((j, st))
+                todo.extend((k, st or st2) for k, st2 in succ[j])
+        if hit:
+            n += 1
     return n
 
 
